@@ -52,11 +52,14 @@ def wrap(v, t):
 
 
 class Run:
-    def __init__(self, prog, f, bufs, ptr_params=None, int_params=None, mem_ptrs=None, call_ptrs=None, growable=(), mems=None, depth=0, budget=None):
+    def __init__(self, prog, f, bufs, ptr_params=None, int_params=None, mem_ptrs=None, call_ptrs=None, growable=(), mems=None, depth=0, budget=None, methods=None, ignore=None):
         self.prog, self.f = prog, f
         self.bufs = bufs                        # name -> list of ints (shared with sub-runs)
         self.vars = {}                          # var id -> int | ('P', buf, idx)
-        self.mems = dict(mems or {})            # member name -> value
+        self.mems = mems if mems is not None else {}   # member name -> value (shared with sub-runs of the same object)
+        self.methods = methods or {}            # method name -> 'interp' | callable(run, call expr, arg values)
+        self.ignore = ignore                    # callable(stmt) -> True: statement irrelevant to the tracked state, skipped
+        self.boxed = {}                         # var id -> buffer name (locals whose address was taken)
         self.call_ptrs = call_ptrs or {}        # method name -> pointer value
         self.growable = set(growable)
         self.depth = depth
@@ -123,6 +126,8 @@ class Run:
         raise Unsupported('lvalue `%s`' % pe(e))
 
     def get(self, l):
+        if l[0] == 'var' and l[1] in self.boxed:
+            return self.bufs[self.boxed[l[1]]][0]
         if l[0] == 'var':
             if l[1] not in self.vars:
                 raise Unsupported('read of an unset variable')
@@ -134,7 +139,9 @@ class Run:
         return self.load(l[1], l[3])
 
     def put(self, l, v):
-        if l[0] == 'var':
+        if l[0] == 'var' and l[1] in self.boxed:
+            self.bufs[self.boxed[l[1]]][0] = wrap(v, l[2])
+        elif l[0] == 'var':
             self.vars[l[1]] = wrap(v, l[2])
         elif l[0] == 'mem':
             self.mems[l[1]] = wrap(v, l[2])
@@ -179,6 +186,8 @@ class Run:
                 return v
             return v
         if k == 'var':
+            if e['id'] in self.boxed:
+                return self.bufs[self.boxed[e['id']]][0]
             if e['id'] in self.vars:
                 return self.vars[e['id']]
             if 'cv' in e:
@@ -202,6 +211,12 @@ class Run:
                 l = self.lv(e['e'])
                 if l[0] == 'buf':
                     return l[1]
+                if l[0] == 'var':
+                    if l[1] not in self.boxed:
+                        name = ('V', l[1], id(self))
+                        self.bufs[name] = [self.vars.get(l[1], 0)]
+                        self.boxed[l[1]] = name
+                    return ('P', self.boxed[l[1]], 0)
                 raise Unsupported('address of `%s`' % pe(e['e']))
             if op in ('post++', 'post--', 'pre++', 'pre--'):
                 l = self.lv(e['e'])
@@ -303,9 +318,39 @@ class Run:
         name = fn.split('::')[-1]
         if fn in bytesets.LIBC and not e.get('clsp'):
             return bytesets.LIBC[fn](self.val(e['a'][0]))
+        if fn in ('memcpy', 'memmove', 'memset') and not e.get('clsp'):
+            dst = self.val(e['a'][0])
+            n_ = self.val(e['a'][2])
+            if not isinstance(dst, tuple) or dst[0] != 'P' or not isinstance(n_, int):
+                raise Unsupported('`%s`' % pe(e))
+            if fn == 'memset':
+                v_ = self.val(e['a'][1])
+                for j in range(n_):
+                    self.store(('P', dst[1], dst[2] + j), v_ & 255, e.get('l'))
+                return dst
+            src = self.val(e['a'][1])
+            if not isinstance(src, tuple):
+                raise Unsupported('`%s`' % pe(e))
+            vals = [self.load(('P', src[1], src[2] + j), e.get('l')) for j in range(n_)]
+            for j in range(n_):
+                self.store(('P', dst[1], dst[2] + j), vals[j], e.get('l'))
+            return dst
         if e.get('obj') is not None or e.get('clsp'):
             if name in self.call_ptrs and not e.get('a'):
                 return self.call_ptrs[name]
+            m = self.methods.get(name)
+            if m is not None and (e.get('obj') is None or strip_lv(e['obj']).get('k') == 'this'):
+                args = [self.val(a) for a in e.get('a', [])]
+                if callable(m):
+                    return m(self, e, args)
+                cands = [g for g in self.prog.fn(fn, e.get('sig')) if g.get('body')]
+                if not cands:
+                    raise Unsupported('method %s has no body' % fn)
+                g = cands[0]
+                sub = Run(self.prog, g, self.bufs, depth=self.depth + 1, budget=self.budget, growable=self.growable, mems=self.mems, methods=self.methods, ignore=self.ignore, call_ptrs=self.call_ptrs)
+                for p_, a in zip(g['params'], args):
+                    sub.vars[p_['id']] = wrap(a, T(g, p_['t']))
+                return sub.run()
             raise Unsupported('member call `%s`' % pe(e))
         if self.depth > 4:
             raise Unsupported('call depth')
@@ -339,6 +384,7 @@ class Run:
             raise Unsupported('local %s of type %s' % (v['n'], tv.get('s')))
         if not (tv.get('int') or tv.get('ptr') or tv.get('flt')):
             raise Unsupported('local %s of type %s' % (v['n'], tv.get('s')))
+        self.boxed.pop(v['id'], None)
         self.vars[v['id']] = wrap(self.val(v['init']), tv)
 
     def stmt(self, s):
@@ -346,6 +392,10 @@ class Run:
         if s is None:
             return
         k = s.get('k')
+        if self.ignore is not None and k in ('expr', 'decl', 'for', 'while', 'return') and self.ignore(s):
+            if k == 'return':
+                raise _Return(None)
+            return
         if k == 'block':
             for x in s['s']:
                 self.stmt(x)
